@@ -159,9 +159,26 @@ CHECKS = {
              "to the same option is pending are outside H (impl-vs-model only). Re-assigning the value that is in flight, or editing a list back to what the "
              "newest outstanding SETCONF carries, is a don't-care the generator avoids. Known finding: an emptied list sends nothing instead of a clear request "
              "(argsOf_emptied). The theorems speak of pending names and argument shape; that an edit of one list leaves the content sent for other options "
-             "alone (heap separation) is covered by the correspondence run, not a theorem.",
+             "alone is C11_edit_frame (heap ownership invariant). Second known finding: a comma-separated list option is sent as one pair per item (pinned by ConfigTests.test_multiple_orports).",
         technique="Lean 4: refinement of the pending-set bookkeeping to a change-counting machine for all operation sequences + shape theorems on save; differential correspondence with a three-way oracle",
         ref='§4 C10'),
+    'C11': dict(
+        text=("C11_boot_ok (the state after attaching meets the invariants: nothing pending, every tracked list owned by one option, every option of "
+              "its declared shape) and C11_boot_shows (what each option reads right after: typed parse of Tor's answer, default when unset, __FooPort "
+              "fallback for port lists); C11_event_shows / C11_event_frame (after a change event the option reads as the typed view of the announced "
+              "values — zero values: the default — and every other option reads as before); C11_view_tracks(_events) (after ANY sequence of events an "
+              "option reads as the view of the values announced for it last); C11_value_persists (that reading survives any sequence of operations on "
+              "other options: assignments, in-place edits, saves, answers, further events); C11_shape_stable (through EVERY sequence of events with "
+              "0/1/many values, shape-respecting assignments, edits, saves and answers, a list-typed option reads as a list and every in-place "
+              "operation applies to it; scalars never become lists); C11_edit_shows / C11_edit_frame (an in-place edit changes exactly the option "
+              "edited: heap ownership invariant); C11_comma_roundtrip, strip_idem. Correspondence: random option tables over every declared type, "
+              "events with random letter case, reads under random letter case, interleaved edits and saves, against the real TorConfig."),
+        note=NOTE_COMMON + "Name matching is case-insensitive in the harness mapping (names are numbers in the model); validate() of assigned Python values and the "
+             "decimal spelling of ints/floats are applied by the harness (canon is tested on examples, not proved against Python's int()/float()). H: Tor's values "
+             "are well-formed for the type, a comma list is reported as at most one value, an event names only options with no local change pending or outstanding. "
+             "Known findings (shared root cause with C10): an emptied list is not cleared in Tor, an edited comma list is sent as repeated keys.",
+        technique="Lean 4: invariants (ownership of list objects, declared shapes) by induction over all operation sequences + view-tracking theorem over all event sequences; differential correspondence with a three-way oracle",
+        ref='§4 C11'),
     'C20': dict(
         text=("C20_refines: for EVERY history of ADDRMAP lines (all token forms: local-time field, EXPIRES=, NEVER, <error>, extra flags) and clock "
               "advances, with any expiry offset past or future, the model's map equals the spec's (Tor's latest mapping per name under the clock: "
